@@ -28,59 +28,59 @@ LEDGER = {
                 mc=([M("ESDTNFTTransfer,create,flags", hs=("u0a", "u1a"), ptoks=("4e",), pshards=(0, 1), freeze=()),
                      M("ESDTTransfer,issue,MultiESDTNFTTransfer,flags", hs=("u0a", "u1a"), pshards=(1,)),
                      M("ESDTTransfer,issue,ESDTNFTTransfer,create")],
-                    [M("ESDTTransfer,issue,ESDTNFTTransfer,MultiESDTNFTTransfer,create", msgs=2), M("ESDTTransfer,issue,flags,MultiESDTNFTTransfer,ESDTNFTTransfer,create", pshards=(0, 1))]),
+                    [M("ESDTNFTTransfer,MultiESDTNFTTransfer,create,flags", hs=("u0a", "u1a"), ptoks=("4e",), pshards=(0, 1), freeze=()), M("ESDTTransfer,issue,MultiESDTNFTTransfer,flags", pshards=(0, 1)), M("ESDTTransfer,issue,ESDTNFTTransfer,MultiESDTNFTTransfer,create", msgs=2, hs=("u0a", "u0b", "u1a"))]),
                 need=dict(tok_ok=20, deliver_ok=5, deliver_err=1, refund_ok=1, overdraft_rej=1, alias_rej=1)),
     "C02": dict(profile="supply", preds=["P02_Delta", "P02_Others", "P02_NoOverdraft", "NoNegative", "Conservation"],
                 mc=([M("mintburn,create,flags,issue", supply=3)],
-                    [M("mintburn,create,flags,issue,ESDTTransfer,roles", supply=4, ctr=2)]),
+                    [M("mintburn,create,flags,issue,ESDTTransfer", supply=3, ctr=2), M("mintburn,create,roles,issue", supply=3, hs=("u0a", "u0b"))]),
                 need=dict(supply_ok=20, overdraft_rej=2, role_rej=2)),
     "C03": dict(profile="roles", preds=["P03_Authority", "P03_Grant", "P03_Denied"],
                 mc=([M("mintburn,roles,acct"), M("create,handover,metaops")],
-                    [M("mintburn,create,roles,handover,acct", supply=2), M("create,handover,metaops,flags,ESDTNFTTransfer", ctr=2)]),
+                    [M("mintburn,roles,acct,flags", supply=3), M("create,handover,metaops,ESDTNFTTransfer", ctr=2), M("mintburn,create,handover,acct", hs=("u0a", "u1a"))]),
                 need=dict(role_ok=10, role_rej=5, acct_ok=3, acct_rej=2, handover_ok=1, flag_ok=3)),
     "C04": dict(profile="freeze", preds=["P04_Immobile", "P04_NoCreditWhilePaused", "P04_FlagOnly", "P04_Restores"],
                 mc=([M("ESDTNFTTransfer,MultiESDTNFTTransfer,create,flags", hs=("u0a", "u1a"), ptoks=("4e",), pshards=(0, 1), freeze=()),
                      M("ESDTTransfer,MultiESDTNFTTransfer,flags,mintburn,issue", hs=("u0a", "u1a"), pshards=(1,), supply=3)],
-                    [M("ESDTTransfer,ESDTNFTTransfer,MultiESDTNFTTransfer,flags,mintburn,create,issue", supply=3, freeze=("u0a", "u1a"), ptoks=("46", "4e"), pshards=(0, 1))]),
+                    [M("ESDTNFTTransfer,MultiESDTNFTTransfer,create,flags", ptoks=("4e",), pshards=(0, 1), freeze=()), M("ESDTTransfer,MultiESDTNFTTransfer,flags,mintburn,issue", freeze=("u0a", "u1a"), pshards=(0, 1), supply=3)]),
                 need=dict(frozen_rej=3, paused_rej=3, flag_ok=10, refund_ok=1)),
     "C05": dict(profile="kv", preds=["P05_Protected", "P05_KVExact", "P05_Frame"],
                 mc=([M("kv,ESDTTransfer,acct")],
-                    [M("kv,ESDTTransfer,ESDTNFTTransfer,create,acct,flags,roles,handover")]),
+                    [M("kv,ESDTTransfer,acct"), M("kv,ESDTNFTTransfer,create,flags,roles,handover", hs=("u0a", "u1a"))]),
                 need=dict(kv_ok=10, kv_prot_rej=5, tok_ok=5)),
     "C06": dict(profile="gas", flags=["-gassweep"], preds=["P06_NoGasCreated", "P06_Underfunded"],
                 mc=([M("ESDTTransfer,kv,create,ESDTNFTTransfer,MultiESDTNFTTransfer", gas=(0, 9, 10, 11, 60, 1000), hs=("u0a", "u1a"))],
-                    [M("ESDTTransfer,kv,create,metaops,mintburn,acct,ESDTNFTTransfer,MultiESDTNFTTransfer", gas=(0, 9, 10, 11, 20, 60, 61, 1000))]),
+                    [M("ESDTTransfer,kv,create,ESDTNFTTransfer,MultiESDTNFTTransfer", gas=(0, 9, 10, 11, 60, 1000), hs=("u0a", "u1a")), M("metaops,mintburn,acct,create", gas=(0, 9, 10, 11, 20, 1000), hs=("u0a", "u1a"))]),
                 need=dict(gas_max=20, gas_rej=20, priced=50)),
     "C07": dict(profile="nonce", preds=["P07_ReturnedNonce", "P07_Handover", "P07_CtrOnlyByCreate", "CounterWithRole"],
                 mc=([M("create,handover,ESDTNFTTransfer", ctr=2)],
-                    [M("create,handover,ESDTNFTTransfer,MultiESDTNFTTransfer", msgs=2, ctr=3)]),
+                    [M("create,handover,ESDTNFTTransfer", ctr=3), M("create,handover,ESDTNFTTransfer,MultiESDTNFTTransfer", msgs=2, ctr=2, hs=("u0a", "u1a"))]),
                 need=dict(create_ok=15, handover_ok=2, handover_deliver=1)),
     "C08": dict(profile="meta", preds=["P08_Conf", "P08_Create", "P08_OnlyUriAttr", "P08_UriAttrExact", "P08_WrongHash"],
                 mc=([M("create,metaops,ESDTNFTTransfer")],
-                    [M("create,metaops,ESDTNFTTransfer,MultiESDTNFTTransfer", msgs=2, ctr=2)]),
+                    [M("create,metaops,ESDTNFTTransfer,MultiESDTNFTTransfer", ctr=1), M("create,metaops,ESDTNFTTransfer", msgs=2, ctr=2, hs=("u0a", "u1a"))]),
                 need=dict(create_ok=10, meta_fn_ok=2, tok_ok=15, deliver_ok=3)),
     "C09": dict(profile="payable", preds=["P09_Admissible", "P09_Rejected"],
                 mc=([M("ESDTTransfer,ESDTNFTTransfer,MultiESDTNFTTransfer,create,issue", hs=("u0a", "u1a", "c1a"))],
-                    [M("ESDTTransfer,ESDTNFTTransfer,MultiESDTNFTTransfer,create,issue", msgs=2, hs=("u0a", "u0b", "u1a", "c1a"))]),
+                    [M("ESDTTransfer,ESDTNFTTransfer,MultiESDTNFTTransfer,create,issue", hs=("u0a", "u1a", "c1a")), M("ESDTTransfer,ESDTNFTTransfer,MultiESDTNFTTransfer,create,issue", msgs=2, hs=("u0a", "c1a"))]),
                 need=dict(payable_rej=3, tok_ok=20, nonpay_exempt=1)),
     "C10": dict(profile="transfer", preds=["P10_ParserEqualsLedger", "P10_RoundTrip", "P10_Accepted"],
                 mc=([M("ESDTTransfer,ESDTNFTTransfer,MultiESDTNFTTransfer,create,issue", hs=("u0a", "u1a", "c1a"))],
-                    [M("ESDTTransfer,ESDTNFTTransfer,MultiESDTNFTTransfer,create,issue,handover,acct", msgs=2, hs=("u0a", "u0b", "u1a", "c1a"))]),
+                    [M("ESDTTransfer,ESDTNFTTransfer,MultiESDTNFTTransfer,create,issue", hs=("u0a", "u1a", "c1a")), M("ESDTTransfer,ESDTNFTTransfer,MultiESDTNFTTransfer,create,handover,acct", msgs=2, hs=("u0a", "u1a"))]),
                 need=dict(out_msgs=10, parsed=30, deliver_ok=5)),
     "C11": dict(profile="mixed", flags=["-alloc", "-adversarial", "75"], preds=["P11_Shape", "P11_ShapeVerdict", "P11_Alloc"],
                 mc=([M("ESDTTransfer,ESDTNFTTransfer,MultiESDTNFTTransfer,create", rejected=True, hs=("u0a", "u1a")), M("mintburn,metaops,create", rejected=True, hs=("u0a",)), M("kv,flags", rejected=True, hs=("u0a",)), M("acct,handover", rejected=True, hs=("u0a", "u1a"))],
-                    [M("ESDTTransfer,ESDTNFTTransfer,MultiESDTNFTTransfer,mintburn,create,metaops,flags,roles,handover,acct,kv,issue", rejected=True)]),
+                    [M("ESDTTransfer,ESDTNFTTransfer,MultiESDTNFTTransfer,create", rejected=True), M("mintburn,metaops,create,flags", rejected=True, hs=("u0a", "u1a")), M("kv,flags,acct,handover,roles", rejected=True, hs=("u0a", "u1a"))]),
                 need=dict(shapebad=100, steps=1000, gas_max=20)),
     "C13": dict(profile="mixed", flags=["-triple"], preds=["P13_Replicas", "P13_InputIntact"],
                 mc=([M("ESDTTransfer,issue,ESDTNFTTransfer,create")], [M("ESDTTransfer,issue,ESDTNFTTransfer,MultiESDTNFTTransfer,create,mintburn")]),
                 need=dict(replicas=500, tok_ok=10), scale=0.5),
     "C15": dict(profile="mixed", preds=["WellFormed", "SysClean", "NoNegative"],
                 mc=([M("ESDTTransfer,ESDTNFTTransfer,create,handover"), M("ESDTTransfer,flags,mintburn,issue", supply=3)],
-                    [M("ESDTTransfer,issue,ESDTNFTTransfer,MultiESDTNFTTransfer,mintburn,create,metaops,flags,roles,handover")]),
+                    [M("ESDTTransfer,ESDTNFTTransfer,create,handover,metaops"), M("ESDTTransfer,flags,mintburn,issue,roles", supply=3), M("ESDTTransfer,issue,ESDTNFTTransfer,MultiESDTNFTTransfer,mintburn,create,flags,roles,handover", hs=("u0a", "u1a"))]),
                 need=dict(tok_ok=10, supply_ok=10, flag_ok=5, create_ok=5)),
     "C16": dict(profile="gas", flags=["-gassweep"], preds=["P16_Price", "P16_ProbePrice", "P16_Charged"],
                 mc=([M("sched,ESDTTransfer,kv,create,ESDTNFTTransfer,MultiESDTNFTTransfer", gas=(60, 1000), hs=("u0a", "u1a"))],
-                    [M("sched,ESDTTransfer,kv,create,metaops,mintburn,acct,ESDTNFTTransfer,MultiESDTNFTTransfer", gas=(60, 1000))]),
+                    [M("sched,ESDTTransfer,kv,create,ESDTNFTTransfer,MultiESDTNFTTransfer", gas=(60, 1000), hs=("u0a", "u1a")), M("sched,metaops,mintburn,acct,create", gas=(60, 1000), hs=("u0a", "u1a"))]),
                 need=dict(sched_ok=3, sched_rej=2, priced=80, probe=100)),
     "C17": dict(profile="mixed", flags=["-faults"], preds=["P17_FaultIsError", "P17_NoPanic"],
                 mc=([M("ESDTTransfer,issue,ESDTNFTTransfer,create")], [M("ESDTTransfer,issue,ESDTNFTTransfer,MultiESDTNFTTransfer,create,mintburn")]),
@@ -158,7 +158,10 @@ def model_and_emit(run, mc, label):
     """(M) + generation in one TLC run: exhaustive check of the bounded configuration (every invariant and direct predicate on every
     transition, rejected calls included) that also prints every accepted transition and a sample of the rejected near-misses."""
     kw = dict(mc["kw"])
-    kw.update(rejected=True, emit=True)
+    kw["emit"] = True
+    # rejected calls are explored (and their near-misses emitted) in the two-holder configurations; the quick tier explores only the
+    # accepted calls of the larger ones
+    kw.setdefault("rejected", not (run.tier == "quick" and len(kw.get("hs", ("a", "b", "c"))) > 2))
     if len(kw.get("gas", (1000,))) > 2 and run.tier == "quick":
         kw["gas"] = (kw["gas"][1], kw["gas"][-1])       # quick: the two most interesting gas points (just below a charge, ample)
     kw.setdefault("rejsample", 12 if run.tier == "quick" else 6)
